@@ -99,6 +99,7 @@ def obligations(ctx):
     cases = [
         ("certs", "CertificatesBuilder", "certs", "Cert", lambda E, j, w: VStruct("()", [VLazy("cert%d" % j, "Certificate"), w])),
         ("votes", "VotingBuilder", "votes", "Vote", lambda E, j, w: VStruct("()", [VLazy("voter%d" % j, "Voter"), E.mk_struct("VoterVotes", script_witness=w, votes=VLazy("vv%d" % j, "BTreeMap<GovernanceActionId, VotingProcedure>"))])),
+        ("proposals", "VotingProposalBuilder", "proposals", "VotingProposal", lambda E, j, w: VStruct("()", [VLazy("proposal%d" % j, "VotingProposal"), w])),
     ]
     for name, struct, fld, tag, mkitem in cases:
         ob = Obligation(ctx, "c10_e2_%s_redeemer_index" % name, "1-%d items in emitted order, every Plutus / native-script / key pattern" % maxn, ["%s::get_plutus_witnesses" % struct])
@@ -119,6 +120,33 @@ def obligations(ctx):
                 check_positions(ob, o, list(pat), "item", tag, name)
             agg.stats["paths"] += E.stats["paths"]; agg.stats["feasibility_queries"] += E.stats["feasibility_queries"]; agg.stats["functions"] |= E.stats["functions"]
         ob.finish(agg, lambda m, info=None: ("e2n_c10_pointers", []))
+
+    # ------------------------------------------------------------------ the body emits certificates / proposals in the order the indices count
+    ob = Obligation(ctx, "c10_e2_emitted_order_is_indexing_order", "1-%d certificates / proposals; build() hands the items to the set-typed collection in the container's iteration order (the order get_plutus_witnesses counts)" % maxn,
+                    ["CertificatesBuilder::build", "VotingProposalBuilder::build"])
+    agg = Engine(P)
+    for struct, fld, ety, coll in (("CertificatesBuilder", "certs", "Certificate", "Certificates"), ("VotingProposalBuilder", "proposals", "VotingProposal", "VotingProposals")):
+        for n in range(1, maxn + 1):
+            E = Engine(P, max_loop=n + 3)
+            def fv(E_, c, a):
+                v = VM.deref(E_, a[0])
+                E_.trace.append(("emitted", [VM.deref(E_, x).path if isinstance(VM.deref(E_, x), VLazy) else repr(VM.deref(E_, x)) for x in v.items]))
+                return VLazy("collection", coll)
+            E.extra_intrinsics[r"%s::from_vec$" % coll] = fv
+            def mk(E=E, n=n, struct=struct, fld=fld, ety=ety):
+                return [R(E.mk_struct(struct, **{fld: VSeq([VStruct("()", [VLazy("item%d" % j, ety), VLazy("wit%d" % j, "Option<ScriptWitnessType>")]) for j in range(n)], "map")}), "self")]
+            try:
+                outs = E.explore("%s::build" % struct, mk, max_paths=50)
+            except Unsupported as e:
+                ob.fail("%s::build cannot be executed (%s)" % (struct, str(e)[:160])); continue
+            for o in outs:
+                if o.kind != "return":
+                    ob.vc("no panic in %s::build (%s %s)" % (struct, o.kind, o.msg[:60]), o.pc, z3.BoolVal(False)); continue
+                em = [t[1] for t in o.trace if t[0] == "emitted"]
+                if len(em) != 1 or em[0] != ["item%d" % j for j in range(n)]:
+                    ob.violation("%s::build hands on %s, the redeemer indices count the order %s" % (struct, em, ["item%d" % j for j in range(n)]))
+            agg.stats["paths"] += E.stats["paths"]; agg.stats["functions"] |= E.stats["functions"]
+    ob.finish(agg, lambda m, info=None: ("e2n_c10_pointers", []))
 
     # ------------------------------------------------------------------ spending inputs: index = position in the sorted input set
     ob = Obligation(ctx, "c10_e2_spend_redeemer_index", "1-%d inputs in sorted-set order, every Plutus / native-script / key pattern, at most one key input with a stale Plutus witness entry; script inputs registered under one or two script hashes" % maxn,
